@@ -308,6 +308,8 @@ class T:
             pair = U(tl.target.elts[1])
         elif it == "zip(%s,%s)" % (inv["te_indices"], inv["te_names"]):
             pair = U(tl.target)
+            if isinstance(tl.target, ast.Tuple) and len(tl.target.elts) == 2 and all(isinstance(x, ast.Name) for x in tl.target.elts):
+                env[tl.target.elts[0].id] = "te_idx"; env[tl.target.elts[1].id] = "te_name"      # for te_idx, te_name in zip(...)
         else:
             fail(tl, "the second loop is not over zip(te_indices, te_names)")
         wl = None
